@@ -218,6 +218,16 @@ pub fn lazy_downcast<T: 'static, V: AnyValueCloneable + AnyValue>(v: &V, depth: 
     }
 }
 
+/// what a depth-`d` lazy clone chain reports about itself: (size, value_typeid, id read through as_bytes)
+pub fn lazy_reports<V: AnyValueCloneable + AnyValue>(v: &V, depth: u8) -> (usize, core::any::TypeId, u16) {
+    fn rep<X: AnyValue>(x: &X) -> (usize, core::any::TypeId, u16) { (x.size(), x.value_typeid(), crate::elem::id_of_bytes(x.as_bytes())) }
+    match depth {
+        1 => rep(&v.lazy_clone()),
+        2 => { let l1 = v.lazy_clone(); rep(&l1.lazy_clone()) }
+        _ => { let l1 = v.lazy_clone(); let l2 = l1.lazy_clone(); rep(&l2.lazy_clone()) }
+    }
+}
+
 /// Create chains / copies and drop them all unconsumed.
 pub fn lazy_create_drop<V: AnyValueCloneable + AnyValue>(v: &V, depth: u8, copies: u8) {
     let l1 = v.lazy_clone();
@@ -242,9 +252,13 @@ pub trait TrX: Trait {
     fn lzd_swap_remove<'e, T: 'static, MS: MemBuilder>(_e: &SwapRemove<'e, Self, MS>, _depth: u8) -> Option<T> { unreachable!() }
     fn lz_splice<'e, MS: MemBuilder, M: MemBuilder, S: crate::exec_range::SpliceRun<Self, M>>(_refs: &'e [any_vec::element::ElementRef<'e, Self, MS>], _a: &mut AnyVec<Self, M>, _s: S) -> Vec<crate::exec_range::StepObs> { unreachable!() }
     fn lzc_element<'e, MS: MemBuilder>(_e: &Element<'e, Self, MS>, _depth: u8, _copies: u8) { unreachable!() }
+    fn lzr_element<'e, MS: MemBuilder>(_e: &Element<'e, Self, MS>, _depth: u8) -> (usize, core::any::TypeId, u16) { unreachable!() }
     fn lzc_pop<'e, MS: MemBuilder>(_e: &Pop<'e, Self, MS>, _depth: u8, _copies: u8) { unreachable!() }
+    fn lzr_pop<'e, MS: MemBuilder>(_e: &Pop<'e, Self, MS>, _depth: u8) -> (usize, core::any::TypeId, u16) { unreachable!() }
     fn lzc_remove<'e, MS: MemBuilder>(_e: &Remove<'e, Self, MS>, _depth: u8, _copies: u8) { unreachable!() }
+    fn lzr_remove<'e, MS: MemBuilder>(_e: &Remove<'e, Self, MS>, _depth: u8) -> (usize, core::any::TypeId, u16) { unreachable!() }
     fn lzc_swap_remove<'e, MS: MemBuilder>(_e: &SwapRemove<'e, Self, MS>, _depth: u8, _copies: u8) { unreachable!() }
+    fn lzr_swap_remove<'e, MS: MemBuilder>(_e: &SwapRemove<'e, Self, MS>, _depth: u8) -> (usize, core::any::TypeId, u16) { unreachable!() }
 }
 
 macro_rules! trx_plain {
@@ -268,9 +282,13 @@ macro_rules! trx_cloneable {
             fn lzd_swap_remove<'e, T: 'static, MS: MemBuilder>(e: &SwapRemove<'e, Self, MS>, depth: u8) -> Option<T> { lazy_downcast::<T, _>(e, depth) }
             fn lz_splice<'e, MS: MemBuilder, M: MemBuilder, S: crate::exec_range::SpliceRun<Self, M>>(refs: &'e [any_vec::element::ElementRef<'e, Self, MS>], a: &mut AnyVec<Self, M>, s: S) -> Vec<crate::exec_range::StepObs> { crate::exec_range::lz_splice_impl(refs, a, s) }
             fn lzc_element<'e, MS: MemBuilder>(e: &Element<'e, Self, MS>, depth: u8, copies: u8) { lazy_create_drop(e, depth, copies) }
+            fn lzr_element<'e, MS: MemBuilder>(e: &Element<'e, Self, MS>, depth: u8) -> (usize, core::any::TypeId, u16) { lazy_reports(e, depth) }
             fn lzc_pop<'e, MS: MemBuilder>(e: &Pop<'e, Self, MS>, depth: u8, copies: u8) { lazy_create_drop(e, depth, copies) }
+            fn lzr_pop<'e, MS: MemBuilder>(e: &Pop<'e, Self, MS>, depth: u8) -> (usize, core::any::TypeId, u16) { lazy_reports(e, depth) }
             fn lzc_remove<'e, MS: MemBuilder>(e: &Remove<'e, Self, MS>, depth: u8, copies: u8) { lazy_create_drop(e, depth, copies) }
+            fn lzr_remove<'e, MS: MemBuilder>(e: &Remove<'e, Self, MS>, depth: u8) -> (usize, core::any::TypeId, u16) { lazy_reports(e, depth) }
             fn lzc_swap_remove<'e, MS: MemBuilder>(e: &SwapRemove<'e, Self, MS>, depth: u8, copies: u8) { lazy_create_drop(e, depth, copies) }
+            fn lzr_swap_remove<'e, MS: MemBuilder>(e: &SwapRemove<'e, Self, MS>, depth: u8) -> (usize, core::any::TypeId, u16) { lazy_reports(e, depth) }
         }
     };
 }
